@@ -349,7 +349,7 @@ def run(ctx: vlib.Ctx):
     ]
     env = vlib.pmap(w_env, [None, None], procs=2)[0]
 
-    nh = ctx.budget(66, 260)
+    nh = ctx.budget(40, 220)
     nops = ctx.budget(18, 26)
     hists = [T.gen_history(ctx.rng, ctx.rng.randint(8, nops)) for _ in range(nh)]
     hists += T.pattern_histories()
